@@ -92,6 +92,20 @@ def corpus_cases(prop):
 LOG_ORACLES = {}
 
 
+def early_oracle(log):
+    """a timer handler was entered while the loop's own clock (what iv_now yields) was still before the timer's expiry"""
+    for l in log.splitlines():
+        if l.startswith("EARLY "):
+            w = l.split()
+            return (f"handler of timer {w[1]} invoked while the loop's clock ({w[2]}) is before its expiry ({w[3]}): iv_now inside the handler "
+                    "is earlier than the time the timer was set for")
+    return None
+
+
+for _p in ("C04", "C05", "C07", "C15"):
+    LOG_ORACLES[_p] = early_oracle
+
+
 def failing(r, prop, mon_keys, san_kinds):
     """does this case show the implementation violating the property? returns (sig, msg) or None"""
     for k in mon_keys:
